@@ -27,7 +27,7 @@ type ReuseOp struct {
 	Flags      int      `json:"flags,omitempty"`
 	PrePL      int      `json:"pre_pl,omitempty"` // 0 none, k>0: object #(k-1 mod n) created so far
 	PreIt      int      `json:"pre_it,omitempty"`
-	Take       int      `json:"take,omitempty"` // 0 = walk to the end, k>0 = only k steps (leaves the iterator half-consumed)
+	Take       int      `json:"take,omitempty"` // 0 = walk to the end, k>0 = only k steps (leaves the iterator half-consumed), -1 = no step at all
 	Doc        int      `json:"doc,omitempty"`
 	Restart    bool     `json:"restart,omitempty"`   // dictionary iterator: open a fresh iterator on the kept Dictionary
 	Slot       int      `json:"slot,omitempty"`      // dictionary iterator: which of the two iterators kept open per (segment, field)
@@ -85,7 +85,8 @@ func genReuseCase(t *rapid.T, prop string) *Case {
 			op.PrePL = rapid.IntRange(0, 8).Draw(t, "prepl")
 			op.PreIt = rapid.IntRange(0, 8).Draw(t, "preit")
 			if rapid.IntRange(0, 2).Draw(t, "partial") == 0 {
-				op.Take = rapid.IntRange(1, 3).Draw(t, "take")
+				// -1: the iterator is created (and queried) but never stepped
+				op.Take = rapid.SampledFrom([]int{-1, 1, 1, 2, 3}).Draw(t, "take")
 			}
 			op.Same = rapid.IntRange(0, 3).Draw(t, "same") == 0
 			op.SameBack = !op.Same && rapid.IntRange(0, 3).Draw(t, "sameback") == 0
@@ -265,10 +266,20 @@ func runReuseCase(c *Case, env *Env) *Result {
 				plWant[pl] = want
 				plDesc[pl] = fmt.Sprintf("%s:%q of seg %d (looked up by op #%d)", field, string(term), ws.Idx, oi)
 				plInfo = append(plInfo, fmt.Sprintf("#%d(%s,seg%d)", len(pls)-1, kind, ws.Idx))
+				// the optimisation interface (what conjunction/disjunction optimisers of
+				// the index layer look at before stepping) must answer as for fresh objects
+				if d := diffOptimizable(ws, field, keyBuf, except, wf, wn, wl, it); d != "" {
+					f = mismatch("C13", "reuse", "optimizable", fmt.Sprintf("%s: %s", where, d))
+					return
+				}
 				steps := len(want) + 1
 				if op.Take > 0 && op.Take < steps {
 					steps = op.Take
 					res.probe("half-consumed-iterator-left")
+				}
+				if op.Take < 0 {
+					steps = 0
+					res.probe("iterator-created-but-never-stepped")
 				}
 				for s := 0; s < steps; s++ {
 					p, err := it.Next()
@@ -482,4 +493,51 @@ func runReuseCase(c *Case, env *Env) *Result {
 		}
 	}
 	return res
+}
+
+// diffOptimizable compares what segment.OptimizablePostingsIterator reports
+// for an iterator (possibly recycled, over a possibly recycled list) with what
+// an iterator made from fresh objects reports for the same lookup.
+func diffOptimizable(ws *WSeg, field string, term []byte, except *roaring.Bitmap, wf, wn, wl bool, it segment.PostingsIterator) string {
+	oi, ok := it.(segment.OptimizablePostingsIterator)
+	if !ok {
+		return ""
+	}
+	fd, err := ws.Seg.Dictionary(field)
+	if err != nil {
+		return ""
+	}
+	fpl, err := fd.PostingsList(append([]byte(nil), term...), except, nil)
+	if err != nil {
+		return ""
+	}
+	fit, err := fpl.Iterator(wf, wn, wl, nil)
+	if err != nil {
+		return ""
+	}
+	fo, ok := fit.(segment.OptimizablePostingsIterator)
+	if !ok {
+		return ""
+	}
+	gn, g1 := oi.DocNum1Hit()
+	wn1, w1 := fo.DocNum1Hit()
+	if g1 != w1 || (g1 && gn != wn1) {
+		return fmt.Sprintf("DocNum1Hit() = (%d,%v), an iterator made from fresh objects reports (%d,%v)", gn, g1, wn1, w1)
+	}
+	gb, wb := oi.ActualBitmap(), fo.ActualBitmap()
+	if (gb == nil) != (wb == nil) {
+		return fmt.Sprintf("ActualBitmap() nil=%v, for an iterator made from fresh objects nil=%v", gb == nil, wb == nil)
+	}
+	if gb != nil && !gb.Equals(wb) {
+		return fmt.Sprintf("ActualBitmap() = %v, an iterator made from fresh objects reports %v", head32(gb), head32(wb))
+	}
+	return ""
+}
+
+func head32(b *roaring.Bitmap) []uint32 {
+	a := b.ToArray()
+	if len(a) > 12 {
+		a = a[:12]
+	}
+	return a
 }
